@@ -334,6 +334,35 @@ def ill_typed_and_limit(out, rng):
                                              {'component': 'fresh-results', 'value': v}))
             except Exception as e:  # noqa: BLE001
                 out.failures.append(('fresh-results-raises:' + type(e).__name__, 'length prefix of %d (%s): %r' % (v, use, e), {'component': 'fresh-results', 'value': v}))
+    # text under charsets in which ASCII characters are NOT the ASCII bytes (utf-16, utf-32, cp500, utf-7) and under multi-byte ones: the payload
+    # is the text in that charset (Python's codec is the reference), and decoding the bytes - from_bytes, or read from a track - gives the text back
+    import io
+    for cs in ('utf-16', 'utf-16-le', 'utf-32', 'cp500', 'utf-7', 'utf-8', 'shift_jis', 'cp1252'):
+        for text in ('', 'a', 'plain ascii', 'Track 1', 'caf\u00e9', 'na\u00efve \u65e5\u672c', '\u20ac 5'):
+            try:
+                want = list(text.encode(cs))
+            except UnicodeEncodeError:
+                continue
+            for typ, attr in (('text', 'text'), ('track_name', 'name'), ('lyrics', 'text'), ('device_name', 'name')):
+                n += 1
+                try:
+                    with meta_mod.meta_charset(cs):
+                        m = mido.MetaMessage(typ, **{attr: text})
+                        bs = m.bytes()
+                        k = len(ref_vlq(len(want)))
+                        if bs[:2 + k] != [0xff, bs[1]] + ref_vlq(len(want)) or bs[2 + k:] != want:
+                            out.failures.append(('charset-payload', 'under charset %s the %s %r encodes to %r, the text in that charset is %r' % (cs, typ, text, bs[2 + k:][:20], want[:20]),
+                                                 {'component': 'charsets', 'charset': cs, 'text': text}))
+                            continue
+                        back = mido.MetaMessage.from_bytes(bs)
+                    ev = bytes([0]) + bytes(bs) + bytes([0, 0xFF, 0x2F, 0])
+                    data = b'MThd' + (6).to_bytes(4, 'big') + b'\x00\x01\x00\x01\x01\xe0' + b'MTrk' + len(ev).to_bytes(4, 'big') + ev
+                    got = mido.MidiFile(file=io.BytesIO(data), charset=cs).tracks[0][0]
+                    if getattr(back, attr) != text or getattr(got, attr) != text or back.type != typ or got.type != typ:
+                        out.failures.append(('charset-roundtrip', 'under charset %s the %s %r decodes to %r (from_bytes) / %r (read from a track)' % (cs, typ, text, getattr(back, attr), getattr(got, attr)),
+                                             {'component': 'charsets', 'charset': cs, 'text': text}))
+                except Exception as e:  # noqa: BLE001
+                    out.failures.append(('charset-raises:' + type(e).__name__, 'under charset %s the %s %r: %r' % (cs, typ, text, e), {'component': 'charsets', 'charset': cs, 'text': text}))
     out.evaluations += n
     out.components['ill-typed values and the reader limit (implementation against the statement)'] = {'cases': n}
 
